@@ -22,7 +22,7 @@ Require Import Fggs.Model.Semiring Fggs.Model.SCC Fggs.Model.SumProduct Fggs.Mod
                Fggs.Model.Kleene Fggs.Model.EReal Fggs.Model.Trop Fggs.Model.Viterbi Fggs.Model.ViterbiAlg.
 Require Import Fggs.Proofs.BigSum Fggs.Proofs.SP_mono Fggs.Proofs.SP_trees Fggs.Proofs.SP_rename
                Fggs.Proofs.Viterbi_trop Fggs.Proofs.Viterbi_proofs Fggs.Proofs.ViterbiAlg_base
-               Fggs.Proofs.ViterbiAlg_loop.
+               Fggs.Proofs.ViterbiAlg_loop Fggs.Proofs.ViterbiAlg_rhsasst.
 Local Open Scope nat_scope.
 
 Local Notation sumT := (sumS trop_ops).
@@ -57,10 +57,13 @@ Lemma reconstruct_S G T f X xi :
       match nth lp rps None with
       | None => None
       | Some ptr =>
-        if negb (Nat.eqb (length ptr) (length (summed (get_rule G gi)))) then None else
-        match opt_all (map (recon_child G T f (rebuild (get_rule G gi) xi ptr)) (r_edges (get_rule G gi))) with
-        | Some ch => Some (DT gi (rebuild (get_rule G gi) xi ptr) ch)
+        match rhs_asst_code (get_rule G gi) xi ptr with
         | None => None
+        | Some a =>
+          match opt_all (map (recon_child G T f a) (r_edges (get_rule G gi))) with
+          | Some ch => Some (DT gi a ch)
+          | None => None
+          end
         end
       end
     end
@@ -97,14 +100,14 @@ Proof.
   destruct (nt_cell nr xi) as [[v lp] rps].
   destruct (nth_error (rule_idx G X) lp) as [gi|]; [|discriminate].
   destruct (nth lp rps None) as [ptr|]; [|discriminate].
-  destruct (negb (Nat.eqb (length ptr) (length (summed (get_rule G gi))))); [discriminate|].
-  destruct (opt_all (map (recon_child G T f (rebuild (get_rule G gi) xi ptr)) (r_edges (get_rule G gi)))) as [ch|] eqn:Hch;
+  destruct (rhs_asst_code (get_rule G gi) xi ptr) as [a|]; [|discriminate].
+  destruct (opt_all (map (recon_child G T f a) (r_edges (get_rule G gi)))) as [ch|] eqn:Hch;
     [|discriminate].
   assert (Hx : forall x y, In x (r_edges (get_rule G gi)) ->
-                recon_child G T f (rebuild (get_rule G gi) xi ptr) x = Some y ->
-                recon_child G (T ++ E) f (rebuild (get_rule G gi) xi ptr) x = Some y).
+                recon_child G T f a x = Some y ->
+                recon_child G (T ++ E) f a x = Some y).
   { intros x y _. unfold recon_child. destruct (is_term G (fst x)); [intros E0; exact E0|].
-    destruct (reconstruct_model G T f (fst x) (sel (rebuild (get_rule G gi) xi ptr) (snd x))) as [t'|] eqn:Et; [|discriminate].
+    destruct (reconstruct_model G T f (fst x) (sel a (snd x))) as [t'|] eqn:Et; [|discriminate].
     rewrite (IH _ _ _ Et). intros E0. exact E0. }
   rewrite (opt_all_map_ext _ _ _ Hx ch Hch). exact H.
 Qed.
@@ -190,7 +193,7 @@ Proof.
   destruct (proj1 (rule_idx_spec G n gi) (nth_error_In _ _ Hgi)) as [Hgi1 Hgi2].
   rewrite reconstruct_S, aget_app, (Hdisj n Hn), Hget, Hc, Hgi, Hptr, Hgr.
   destruct Hgood as (Hplen & Ha & Hext & Hprod).
-  rewrite Hplen, Nat.eqb_refl. cbn [negb].
+  rewrite (rhs_asst_code_spec r xi ptr _ Hext), <- Hplen, Nat.eqb_refl.
   set (a := rebuild r xi ptr) in *.
   rewrite Hvq in Hprod.
   (* the children *)
